@@ -560,9 +560,10 @@ func first(a, _ []byte) []byte { return a }
 //@     invariant depth <= idx && forall(i, depth, idx, key[i] == other[i]) && implies(depth <= maxCmp, idx <= maxCmp) && implies(depth > maxCmp, idx == depth)
 //@     decreases maxCmp - idx
 
-//@ spec NodeOK(o) = implies(atype(o) == typeid(node4), Inv4(as(node4, o)) && as(node4, o).childrenLen >= 2) && implies(atype(o) == typeid(node16), Inv16(as(node16, o)) && as(node16, o).childrenLen >= 4) && implies(atype(o) == typeid(node48), Inv48(as(node48, o)) && as(node48, o).childrenLen >= 13) && implies(atype(o) == typeid(node256), Inv256(as(node256, o)) && cntP(as(node256, o).children, 256) >= 38)
+//@ spec fanOK(k, m) = k == 0 || k >= m
+//@ spec NodeOK(o) = implies(atype(o) == typeid(node4), Inv4(as(node4, o)) && fanOK(as(node4, o).childrenLen, 2)) && implies(atype(o) == typeid(node16), Inv16(as(node16, o)) && fanOK(as(node16, o).childrenLen, 4)) && implies(atype(o) == typeid(node48), Inv48(as(node48, o)) && fanOK(as(node48, o).childrenLen, 13)) && implies(atype(o) == typeid(node256), Inv256(as(node256, o)) && fanOK(cntP(as(node256, o).children, 256), 38))
 //@ spec rootOK(r) = r.pointer == nil || okRef(r)
-//@ spec rootLive(r) = r.pointer == nil || !pooled(r.pointer)
+//@ spec rootLive(r) = r.pointer == nil || liveChild(r)
 
 //@ spec LeafOK_alpha(o) = as(alphaLeafNode, o).key.obj != nil && allocated(as(alphaLeafNode, o).key.obj) && 0 <= as(alphaLeafNode, o).key.idx && as(alphaLeafNode, o).key.idx + as(alphaLeafNode, o).len <= blen(as(alphaLeafNode, o).key.obj)
 //@ spec HeapOK_alpha() = forallref(o, implies(inT(o) && allocated(o) && o != nil && !pooled(o), NodeOK(o) && implies(atype(o) == leafT(), LeafOK_alpha(o))))
@@ -622,9 +623,10 @@ func first(a, _ []byte) []byte { return a }
 // LinkedLive: no live node references a pooled (released) node. It follows from the
 // unique-parent ownership invariant of the tree, which is not verified at this rung: it is
 // ASSUMED on entry of every tree operation and is not re-established by Insert/Delete.
-//@ spec childrenLive(o) = implies(atype(o) == typeid(node4), forall(i, 0, 4, implies(i < as(node4, o).childrenLen, !pooled(as(node4, o).children[i].pointer)))) && implies(atype(o) == typeid(node16), forall(i, 0, 16, implies(i < as(node16, o).childrenLen, !pooled(as(node16, o).children[i].pointer)))) && implies(atype(o) == typeid(node48), forall(j, 0, 48, implies(as(node48, o).children[j].pointer != nil, !pooled(as(node48, o).children[j].pointer)))) && implies(atype(o) == typeid(node256), forall(x, 0, 256, implies(as(node256, o).children[x].pointer != nil, !pooled(as(node256, o).children[x].pointer))))
+//@ spec liveChild(r) = !pooled(r.pointer) && implies(r.tag != 4, fanOf(r) >= 1)
+//@ spec childrenLive(o) = implies(atype(o) == typeid(node4), forall(i, 0, 4, implies(i < as(node4, o).childrenLen, liveChild(as(node4, o).children[i])))) && implies(atype(o) == typeid(node16), forall(i, 0, 16, implies(i < as(node16, o).childrenLen, liveChild(as(node16, o).children[i])))) && implies(atype(o) == typeid(node48), forall(j, 0, 48, implies(as(node48, o).children[j].pointer != nil, liveChild(as(node48, o).children[j])))) && implies(atype(o) == typeid(node256), forall(x, 0, 256, implies(as(node256, o).children[x].pointer != nil, liveChild(as(node256, o).children[x]))))
 //@ spec LinkedLive() = forallref(o, implies(inT(o) && allocated(o) && o != nil && !pooled(o), childrenLive(o)))
-//@ spec liveRef(r) = r.pointer == nil || (okRef(r) && !pooled(r.pointer))
+//@ spec liveRef(r) = r.pointer == nil || (okRef(r) && liveChild(r))
 
 //@ func minimum
 //@   requires liveRef(ref)
@@ -663,7 +665,7 @@ func first(a, _ []byte) []byte { return a }
 //@   opt leaf alphaLeafNode
 //@   opt casts on
 //@   opt extent on
-//@   requires okRef(n) && !pooled(n.pointer) && n.tag != 4 && 0 <= depth && depth <= len(key)
+//@   requires okRef(n) && liveChild(n) && n.tag != 4 && 0 <= depth && depth <= len(key)
 //@   requires leafT() == typeid(alphaLeafNode) && HeapOK_alpha() && LinkedLive()
 //@   ensures[bound] 0 <= result && depth + result <= len(key)
 //@   ensures[short_path] implies(as(node, n.pointer).prefixLen <= 10, result <= as(node, n.pointer).prefixLen)
